@@ -8,7 +8,7 @@ struct C01Call
   int api;
   int itype;           // 0 unsigned char, 1 short, 2 int, 3 unsigned, 4 long, 5 long long, 6 unsigned long long, 7 size_t
   long long count;
-  int block;           // 1, 3, 16, 64; BLOCKS_WIDE: 1<<30 or INT_MAX
+  int block;           // 1, 3, 16, 64, 300; BLOCKS_WIDE: 1<<30 or INT_MAX
   int cost_mod, cost;  // body cost = cost scheduling points for indices with (i % cost_mod == 0), else 0
   int nested_at;       // index whose body launches the inner loop (-1: none)
   long long inner_count;
